@@ -10,6 +10,7 @@ import (
 	"os"
 	"path/filepath"
 	"regexp"
+	"runtime"
 	"sort"
 	"strconv"
 	"strings"
@@ -69,6 +70,19 @@ func cmdCheck(args []string) {
 	opts := checkOpts{prop: fs.Arg(0), tier: *tier, seed: seed, timeoutS: 10}
 	if opts.tier == "thorough" {
 		opts.timeoutS = 60
+	}
+	// a machine that is already busy (other checks running side by side) gets a proportionally
+	// larger solver budget, so that load alone does not turn into undecided obligations
+	if data, err := os.ReadFile("/proc/loadavg"); err == nil {
+		var l1 float64
+		if _, err := fmt.Sscanf(string(data), "%f", &l1); err == nil {
+			if f := l1 / float64(runtime.NumCPU()); f > 1 {
+				if f > 5 {
+					f = 5
+				}
+				opts.timeoutS = int(float64(opts.timeoutS) * f)
+			}
+		}
 	}
 	os.Exit(runCheck(opts))
 }
@@ -285,14 +299,14 @@ func solveAllTier(sel []*Obligation, opts checkOpts, work string) {
 }
 
 type evidence struct {
-	PropertyID string                 `json:"property_id"`
-	Tier       string                 `json:"tier"`
-	Seed       int64                  `json:"seed"`
-	Level      string                 `json:"level"`
-	Coverage   map[string]interface{} `json:"coverage"`
-	Assumptions []string              `json:"assumptions"`
-	WallS      float64                `json:"wall_s"`
-	Violations int                    `json:"violations"`
+	PropertyID  string                 `json:"property_id"`
+	Tier        string                 `json:"tier"`
+	Seed        int64                  `json:"seed"`
+	Level       string                 `json:"level"`
+	Coverage    map[string]interface{} `json:"coverage"`
+	Assumptions []string               `json:"assumptions"`
+	WallS       float64                `json:"wall_s"`
+	Violations  int                    `json:"violations"`
 }
 
 func writeEvidence(p *Program, opts checkOpts, sel, all []*Obligation, nObl, nDis, covers int, perBackend map[string]int, solverTime, genS, solveS, wall float64, nViol int, knownHits []*Obligation) {
